@@ -56,6 +56,7 @@ PROPS["C12"] = {
             "TestC12SigBits": LIST(),
             "TestC12Batch": T(400, 12000, shards={"quick": 4, "thorough": 16}),
             "TestC12Decode": T(4000, 160000),
+            "FuzzC12Decode": FUZZ(90, configs=["default"]),
             "TestC12DecodeList": LIST(),
         },
     }],
